@@ -277,6 +277,17 @@ def gen_cases(rng, tier):
             add(fin({'op': 'm2q', 'a': I, 'mode': 'q', 'edge': True}))
             for edge in (False, True):
                 add(fin({'op': 'm2q', 'a': euler_matrix(rng, sh, edge), 'mode': 'q', 'edge': edge}))
+        # ---------------------------------------------------------------- unitary: perturbed rotations, some singular
+        for sh in SHAPES1:
+            m = euler_matrix(rng, sh, rng.random() < 0.3)
+            m['cls'] = 'Matrix'
+            m['vals'] = [x + rng.uniform(-1e-3, 1e-3) for x in m['vals']]
+            if size(sh) and rng.random() < 0.4:
+                k = rng.randrange(size(sh))
+                m['vals'][9 * k:9 * k + 9] = [0.0] * 9            # a singular element
+                bits = mask_bits(m['mask'], sh); bits[k] = True   # ... which the caller has masked
+                m['mask'] = rng.choice(mask_reps(bits, sh))
+            add(fin({'op': 'unitary', 'a': m, 'noreq': True}))
         # ---------------------------------------------------------------- to_euler, all 24 conventions
         for axes in AXES:
             sh = rng.choice(SHAPES1)
